@@ -189,18 +189,19 @@ func ruleWriterInvariant(c *Ctx, p *core.Program, prefix string) {
 			c.R.Bad(rule, core.FuncName(cut), cfg, p.Pos(cut.Pos()), sprintf("%d stores to vec and %d to bufOffset in cutBuffer (expected one each): the tail is emitted twice or never marked as emitted", len(vs), len(os)))
 			return
 		}
-		// the slice appended
+		// the slice appended (possibly computed by a single-exit helper that returns it)
 		ap, ok := vs[0].Val.(*ssa.Call)
 		var sl *ssa.Slice
 		if ok {
 			if bi, ok := ap.Call.Value.(*ssa.Builtin); ok && bi.Name() == "append" {
 				for _, e := range variadicElems(ap.Call.Args[1]) {
-					if s, ok := e.(*ssa.Slice); ok && sl == nil {
+					if s, ok := throughHelperResult(e).(*ssa.Slice); ok && sl == nil {
 						sl = s
 					}
 				}
 			}
 		}
+		offVal := throughHelperResult(os[0].Val)
 		if sl == nil {
 			c.R.Bad(rule, core.FuncName(cut), cfg, p.Pos(vs[0].Pos()), "what is appended to vec is not a slice of the staging buffer")
 			return
@@ -220,7 +221,7 @@ func ruleWriterInvariant(c *Ctx, p *core.Program, prefix string) {
 			c.R.Bad(rule, core.FuncName(cut), cfg, p.Pos(sl.Pos()), "the cut does not start at bufOffset: bytes are emitted twice or skipped")
 		case sl.High != nil && !isLenBuf(sl.High):
 			c.R.Bad(rule, core.FuncName(cut), cfg, p.Pos(sl.Pos()), "the cut does not end at the current length of the staging buffer")
-		case !isLenBuf(os[0].Val):
+		case !isLenBuf(offVal) && !(sl.High != nil && offVal == sl.High):
 			c.R.Bad(rule, core.FuncName(cut), cfg, p.Pos(os[0].Pos()), "bufOffset is not advanced to the length that was cut")
 		default:
 			// both stores on the same paths: from the vec store every exit passes the bufOffset store or it precedes
@@ -638,4 +639,38 @@ func ruleNoCapInEncoders(c *Ctx, p *core.Program, rule string) {
 		}
 	}
 	c.R.Floor(rule, cfg, n, 80)
+}
+
+// throughHelperResult: a value that is the i-th result of a call to a single-exit helper of the
+// same package is replaced by the expression the helper returns there.
+func throughHelperResult(v ssa.Value) ssa.Value {
+	idx := 0
+	var call *ssa.Call
+	switch x := v.(type) {
+	case *ssa.Extract:
+		idx = x.Index
+		call, _ = x.Tuple.(*ssa.Call)
+	case *ssa.Call:
+		call = x
+	}
+	if call == nil {
+		return v
+	}
+	g := core.StaticFn(call)
+	if g == nil || g.Blocks == nil || call.Parent() == nil || pkgOf(g) == nil || pkgOf(g) != pkgOf(call.Parent()) {
+		return v
+	}
+	var only *ssa.Return
+	for _, b := range g.Blocks {
+		if ret, ok := b.Instrs[len(b.Instrs)-1].(*ssa.Return); ok {
+			if only != nil {
+				return v
+			}
+			only = ret
+		}
+	}
+	if only == nil || len(only.Results) <= idx {
+		return v
+	}
+	return only.Results[idx]
 }
